@@ -85,6 +85,15 @@ TimeSeriesSeries(X) ==
          Series(IF d = 1 THEN InputLabel(i) ELSE "", [k \in DOMAIN X.L |-> Q(Add(Frac(X.T[d], 86400), Frac(X.L[k], 24)))],
                 [k \in DOMAIN X.L |-> fc(i, X.T[d], X.L[k])])]
 
+\* ... and, for inputs that carry ensemble members, one (unlabelled) line per input, member and initialisation time: THAT member's values
+TimeSeriesMembers(X, members) ==
+  LET nT == Len(X.T)  nM == Len(members)
+      mv(i, f, t, l) == LET vals == SelectSeq([k \in DOMAIN X.S |-> X.adj[i, f, <<t, l, X.S[k]>>]], LAMBDA v : IsFinite(v)) IN
+                        IF vals = <<>> THEN NaNE ELSE Q(MeanSeq(vals))
+  IN  [n \in 1..(X.n * nM * nT) |->
+         LET i == ((n - 1) \div (nM * nT)) + 1  m == (((n - 1) \div nT) % nM) + 1  d == ((n - 1) % nT) + 1 IN
+         Series("", [k \in DOMAIN X.L |-> Q(Add(Frac(X.T[d], 86400), Frac(X.L[k], 24)))], [k \in DOMAIN X.L |-> mv(i, members[m], X.T[d], X.L[k])])]
+
 \* ---- third tranche (deterministic data) ------------------------------------------------------------------------
 \* the whole-array view of input i: obs and fcst of a case count only if BOTH are valid (and valid in every input: X.adj)
 JointValid(X, i, c) == IsFinite(X.adj[i, "obs", c]) /\ IsFinite(X.adj[i, "fcst", c])
